@@ -61,7 +61,7 @@ def run(ctx):
             if fmt.name != "fastq":
                 return None
             lines = rec.split(eol)
-            lines[2] = "x" + lines[2][1:]
+            lines[2] = r.choice(["x" + lines[2][1:], "x" + lines[2][1:], "", "-", " +"])        # another character in place of '+', or a blank third line
             raws[pos] = eol.join(lines)
             line = pos * L + 2
         elif cls == "nonnumeric":
@@ -115,11 +115,23 @@ def run(ctx):
             t.tolist()
         tables.rows_of(t, list(fmt.fields))
 
+    eager_read_completed = [False]
+
     def attempt(path, fmt, bt, lazy, k, how="columns", other=None):
         """-> ('table', n) | ('FormatException', line) | ('error', type);  other: a well-formed file read chunk by chunk in between (two readers in one process)"""
         try:
             rd = bnp.open(path, buffer_type=bt, lazy=lazy)
             n = 0
+            if lazy is False and other is None:
+                # eager reading parses every column when the data is read: the read itself (before anything looks at the table) is where a violation surfaces
+                rd0 = bnp.open(path, buffer_type=bt, lazy=False)
+                if k is None:
+                    rd0.read()
+                else:
+                    for _ in rd0.read_chunks(min_chunk_size=k):
+                        pass
+                rd0.close()
+                eager_read_completed[0] = True
             if k is None:
                 t = rd.read()
                 touch(t, fmt, how)
@@ -176,7 +188,11 @@ def run(ctx):
                 for k, lazy, p, mode in configs:
                     how = r.choice(["columns", "columns", "whole-first", "tolist-first"])
                     inter = k is not None and r.random() < 0.15
+                    eager_read_completed[0] = False
                     out = attempt(p, fmt, bt, lazy, k, how, other=good_path if inter else None)
+                    if eager_read_completed[0] and out[0] != "table":
+                        ctx.check("must-raise:" + cls, False, "%s/eager-read-returned-a-table-and-failed-only-when-it-was-looked-at:%s" % (cls, "gzip" if p.endswith(".gz") else "plain"),
+                                  "%s with %s at record %d: reading with lazy=False completed (k=%s) and the error came only when the table was looked at" % (fname, cls, pos, k), dict(wit, k=k, gzip=p.endswith(".gz")), None)
                     nt = (data, cls, pos, k, lazy, p.endswith(".gz")) if n >= 2 else None
                     cfg = "k=%s,%s,%s%s%s" % (k, "lazy" if lazy else "eager", "gzip" if p.endswith(".gz") else "plain", "" if how == "columns" else "," + how, ",interleaved-with-another-reader" if inter else "")
                     if out[0] == "table":
@@ -190,7 +206,8 @@ def run(ctx):
                     if out[0] == "FormatException":
                         ctx.count("format_exceptions")
                         ln = out[1]
-                        ok = ln is not None and span[0] <= ln <= span[1]
+                        # the line where the record starts, or the line inside it where the violation sits (another line of the record is neither)
+                        ok = ln is not None and ln in (span[0], line if span[0] <= line <= span[1] else span[0])
                         ctx.check("line-number:" + cls, ok, "%s/line-number-outside-offending-record:%s" % (cls, mode), "%s with %s at record %d (lines %d..%d): FormatException.line_number = %r (%s)" % (fname, cls, pos, span[0], span[1], ln, cfg),
                                   dict(wit, config=cfg, line_number=ln, span=list(span)), nt)
                         numbers.setdefault(ln, cfg)
